@@ -188,7 +188,7 @@ def validate(run, cases, label):
         if i in acc:
             nd = sum(1 for o in case['hist'] if o['k'] == 'emit')
             if nd and (len(case['script']) or True):
-                run.distinct.add(json.dumps(case, sort_keys=True))
+                run.distinct.add(hash(json.dumps(case, sort_keys=True)))
             continue
         at = rej.get(i, (0, 'no verdict printed'))
         run.violation(case, 'bad: call log not explained by the reference emitter at event %d (%s)'
@@ -259,9 +259,10 @@ def main(tier, replay=None):
     for i in range(0, len(cases), CH):
         validate(run, cases[i:i + CH], 's2c%d' % (i // CH))
     # 4. C2S: random longer behaviours, on Emitter and on Parser (which is an Emitter)
-    n = 1500 if quick else 60000
+    n = 1500 if quick else 24000
+    RCH = 6000       # long random behaviours branch in the trace specification: smaller batches keep TLC's memory flat
     for target in ('Emitter', 'Parser'):
         rc = [random_case(rng, target) for _ in range(n if target == 'Emitter' else n // 3)]
-        for i in range(0, len(rc), CH):
-            validate(run, rc[i:i + CH], 'c2s_%s%d' % (target, i // CH))
+        for i in range(0, len(rc), RCH):
+            validate(run, rc[i:i + RCH], 'c2s_%s%d' % (target, i // RCH))
     return run.finish()
